@@ -138,7 +138,7 @@ def partial_transpose(
     if isinstance(sys, (list, np.ndarray)):
         # Integer dtype also for the empty set of subsystems (an empty list would give a float array).
         sys = np.array(sys, dtype=int)
-    if isinstance(sys, int):
+    if isinstance(sys, (int, np.integer)):
         sys = np.array([sys])
 
     # Allow the user to enter a single number for dim.
